@@ -334,6 +334,10 @@ pub fn getxattr<const L: usize, const W: usize, const PL: usize>(p: u8, symname:
         script.bytes_len = PL;
         script.bytes = kani::any();
         script.reply_count = count_reply;
+        if p == 3 && PL > 0 && !count_reply {
+            // see ops_a::bytes_reply: payload content against a plain success only
+            script.err = 0;
+        }
     }
     let res = drive(hdr, &mut body[..S + L], &mut wbuf, dev_refuses, script, |s, c| s.getxattr(c));
     let nul = first_nul(&snap[..S + L], S);
@@ -363,7 +367,7 @@ pub fn getxattr<const L: usize, const W: usize, const PL: usize>(p: u8, symname:
             assert!(reply_len() == 16 + kn_bytes_len() && reply_error() == 0, "[C03] xattr value reply carries exactly the value");
             let mut i = 0;
             while i < kn_bytes_len() {
-                assert!(r[16 + i] == s.bytes[i], "[C03] xattr value content");
+                assert!(r[16 + i] == kn_bytes()[i], "[C03] xattr value content");
                 i += 1;
             }
         }
